@@ -120,6 +120,10 @@ def run_tlc(module: str, cfg: str, *, prop: str, workers: int | str = 1,
   m = re.search(r'(\d+) states generated, (\d+) distinct states found', out)
   if m:
     transitions, states = int(m.group(1)), int(m.group(2))
+  if simulate is not None:
+    m = re.search(r'The number of states generated: (\d+)', out)
+    if m:
+      transitions = states = int(m.group(1))
   m = re.search(r'depth of the complete state graph search is (\d+)', out)
   if m:
     depth_found = int(m.group(1))
